@@ -108,16 +108,20 @@ def problem_model(prog, rep=None) -> ProblemModel:
     invalidators = []
     for m in P.methods.values():
         body = [s for s in m.node.body if not (isinstance(s, ast.Expr) and isinstance(s.value, ast.Constant))]
-        if len(body) >= 2 and all(
-            isinstance(s, ast.Assign) and len(s.targets) == 1 and isinstance(s.targets[0], ast.Attribute)
-            and dotted(s.targets[0].value) == "self" and isinstance(s.value, ast.Constant) and s.value.value is None
-            for s in body
-        ):
+        def reset_stmt(s):
+            # self.a = None   /   self.a = self.b = None   /   self.a: T = None
+            if isinstance(s, ast.AnnAssign):
+                return isinstance(s.target, ast.Attribute) and dotted(s.target.value) == "self" and isinstance(s.value, ast.Constant) and s.value.value is None
+            return (isinstance(s, ast.Assign) and all(isinstance(t, ast.Attribute) and dotted(t.value) == "self" for t in s.targets)
+                    and isinstance(s.value, ast.Constant) and s.value.value is None)
+
+        n_reset = sum(len(s.targets) if isinstance(s, ast.Assign) else 1 for s in body if reset_stmt(s))
+        if body and n_reset >= 2 and all(reset_stmt(s) for s in body):
             invalidators.append(m)
     if len(invalidators) > 1:
         raise AnalysisError("more than one invalidator-shaped method in Problem")
     inval = invalidators[0] if invalidators else None
-    reset = {s.targets[0].attr for s in inval.node.body if isinstance(s, ast.Assign)} if inval else set()
+    reset = ({t.attr for s in inval.node.body if isinstance(s, ast.Assign) for t in s.targets} | {s.target.attr for s in inval.node.body if isinstance(s, ast.AnnAssign)}) if inval else set()
     rep.saw("invalidator", inval.qual if inval else None)
 
     # ---- cache attributes: memo pattern (tested against None and assigned) anywhere in the package,
@@ -266,3 +270,19 @@ def helper_closure(prog, fi, depth=3):
                     nxt.append(c)
         frontier = nxt
     return list(seen.values())
+
+
+def constructor_fields(prog, cls_name, call):
+    """{field: value node} for a call of a dataclass-style constructor: keywords by name, positional arguments by the
+    order of the annotated fields in the class body."""
+    C = prog.cls(cls_name)
+    order = [st.target.id for st in C.node.body if isinstance(st, ast.AnnAssign) and isinstance(st.target, ast.Name)]
+    out = {}
+    for name, a in zip(order, call.args):
+        if isinstance(a, ast.Starred):
+            break
+        out[name] = a
+    for k in call.keywords:
+        if k.arg:
+            out[k.arg] = k.value
+    return out
